@@ -69,6 +69,51 @@ def run(ctx):
     r7_nothing_swallowed(ctx)
     r8_report_channel(ctx)
     r9_no_blocking_receive(ctx)
+    r10_wait_keys(ctx)
+    r11_workers_die_with_the_parent(ctx)
+
+
+def r10_wait_keys(ctx, rule="C08.R10"):
+    """read_wait: every started worker registers an Event under its own key and waits on it after its last output; the consumer sets the Event when it reads the key.
+    Keys are made by completion callbacks running on several threads: two equal keys make the second Event replace the first and the first worker waits for ever."""
+    ctx.rule(rule, "wait keys are unique under every interleaving of the threads that start workers: UniqueKey.__init__ takes its number in ONE atomic step -- next() on a "
+                   "class-level itertools.count -- never by reading a shared counter and writing it back in a second statement, and never from the size of the shared store; "
+                   "MyProcessLine.start builds the key without arguments")
+    cls = ctx.model.cls(PMP, "UniqueKey")
+    init = cls.methods["__init__"]
+    counters = {t.id for st in cls.node.body if isinstance(st, ast.Assign) and isinstance(st.value, ast.Call) and (call_name(st.value) or "").split(".")[-1] == "count"
+                for t in st.targets if isinstance(t, ast.Name)}
+    sets = [st for st in ast.walk(init) if isinstance(st, (ast.Assign, ast.AugAssign))]
+    num = [st for st in sets if isinstance(st, ast.Assign) and any(is_self_attr(t) for t in st.targets)]
+    atomic = len(num) == 1 and isinstance(num[0].value, ast.Call) and call_name(num[0].value) == "next" and len(num[0].value.args) == 1 \
+        and isinstance(num[0].value.args[0], ast.Attribute) and num[0].value.args[0].attr in counters and unparse(num[0].value.args[0].value) in (cls.name, "type(self)", "self.__class__", "self")
+    shared_writes = [st for st in sets if any(isinstance(t, ast.Attribute) and not is_self_attr(t) for t in (st.targets if isinstance(st, ast.Assign) else [st.target]))]
+    ctx.ob(rule, PMP, "UniqueKey.__init__", num[0] if num else init, "the key's number is drawn in one atomic step from a class-level itertools.count (no read-then-increment of shared state)",
+           atomic and not shared_writes and len(init.args.args) == 1, detail={"number": unparse(num[0].value) if num else None, "shared writes": [unparse(x) for x in shared_writes]}, stmt="UniqueKey number")
+    st_ = ctx.fn(PMP, "MyProcessLine.start")
+    mk = [c for c in ast.walk(st_) if isinstance(c, ast.Call) and call_name(c) == "UniqueKey"]
+    ctx.floor(rule, "UniqueKey constructions in MyProcessLine.start", len(mk), 1)
+    for c in mk:
+        ctx.ob(rule, PMP, "MyProcessLine.start", c, "the key does not depend on the state of the shared store", not c.args and not c.keywords)
+
+
+def r11_workers_die_with_the_parent(ctx, rule="C08.R11"):
+    """'abandoning the output early also terminates cleanly': the workers of an abandoned call stay blocked in in_queue.get() (no pill is written for them); they are
+    daemons, so they end with the program instead of keeping the interpreter from exiting."""
+    ctx.rule(rule, "worker processes and the helper threads are daemons: ProcessLine / ThreadLine pass daemon=True to their base constructors and nothing sets it back")
+    n = 0
+    for cname in ("ProcessLine", "ThreadLine"):
+        init = ctx.model.cls(LNS, cname).methods["__init__"]
+        sup = [c for c in ast.walk(init) if isinstance(c, ast.Call) and unparse(c.func) == "super().__init__"]
+        for c in sup:
+            n += 1
+            d = kw(c, "daemon")
+            ctx.ob(rule, LNS, f"{cname}.__init__", c, "the line is started as a daemon", isinstance(d, ast.Constant) and d.value is True, detail={"daemon": unparse(d) if d is not None else None})
+        for m_ in ctx.model.cls(LNS, cname).methods.values():
+            for st in ast.walk(m_):
+                if isinstance(st, ast.Assign) and any(is_self_attr(t, "daemon") for t in st.targets):
+                    ctx.ob(rule, LNS, f"{cname}.{m_.name}", st, "the daemon flag is not changed afterwards", isinstance(st.value, ast.Constant) and st.value.value is True)
+    ctx.floor(rule, "base constructor calls of the line classes", n, 2)
 
 
 def _line(fn, name):
@@ -559,6 +604,9 @@ def r9_no_blocking_receive(ctx, rule="C08.R9"):
 
 
 CONTROLS = [
+    ("wait keys numbered by the size of the store", PMP, M.chain(M.replace_stmt("UniqueKey.__init__", M.text_has("self._n ="), "self._n = n"), M.replace_expr("MyProcessLine.start", "UniqueKey()", "UniqueKey(len(rw))")), "C08.R10"),
+    ("wait keys from a counter read and then incremented", PMP, M.replace_stmt("UniqueKey.__init__", M.text_has("self._n ="), "self._n = UniqueKey.N\nUniqueKey.N += 1"), "C08.R10"),
+    ("worker processes are not daemons", LNS, M.replace_expr("ProcessLine.__init__", "super().__init__(daemon=True)", "super().__init__(daemon=False)"), "C08.R11"),
     ("worker outputs written raw to the out-queue", PMP, M.replace_expr("Multiprocessor.filter", "SourceSink(in_get, setter, unpickler, get_max, Safe(Foreach(self._filter)), pickler, out_put)",
         "SourceSink(in_get, setter, unpickler, get_max, Safe(Foreach(self._filter)), out_put)"), "C08.R1"),
     ("limit of one child task read as unlimited", "coba/multiprocessing.py", M.replace_stmt("CobaMultiprocessor.__init__", M.text_has("self._maxtasksperchild ="), "self._maxtasksperchild = maxtasksperchild if maxtasksperchild > 1 else 0"), "C08.R5"),
